@@ -270,11 +270,14 @@ Close(rc) ==
     /\ UNCHANGED <<dims, gatts, numrecs, fillmode, fmt, exists>>
     /\ hist' = H([c |-> "close", rc |-> rc])
 
-(* open for writing: the fill switches are not stored in the file; afterwards every variable is "old" *)
+(* open for writing: afterwards every variable is "old".  The per-variable fill switches are not stored in the file: the
+   library reports every variable of an opened file as being in fill mode (ncmpi_inq_var_fill: no_fill = 0) and accordingly
+   lets ncmpi_fill_var_rec fill its records -- modelled as the code behaves (the documentation does not say what the switch
+   of an existing variable is after open; nothing is filled implicitly because of it) *)
 Reopen(rc) ==
     /\ mode = "closed" /\ exists /\ rc = "NC_NOERR"
     /\ mode' = "data"
-    /\ vars' = AsSeq([i \in 1..Len(vars) |-> [vars[i] EXCEPT !.isnew = FALSE]])
+    /\ vars' = AsSeq([i \in 1..Len(vars) |-> [vars[i] EXCEPT !.isnew = FALSE, !.nofill = FALSE]])
     /\ UNCHANGED <<dims, gatts, numrecs, fresh, fillmode, fmt, saved, exists>>
     /\ hist' = H([c |-> "open", rc |-> rc])
 
